@@ -103,8 +103,12 @@ def heapAdd (h : List Tx) (t : Tx) : List Tx := if t ∈ h then h else h ++ [t]
 /-- `Bonder.SetMaxBalance` -/
 def setMax (n : Node) (s m : Nat) : Node := { n with maxBal := setAt n.maxBal s m }
 
-/-- `Node.BuildChunk`'s loop: bond each tx, track the bonded ones in the heap and pass them on.
-Second component: the txs handed to the inner DSMR. -/
+/-- `Node.BuildChunk`'s loop: bond each tx, track the bonded ones in the heap *inside the loop*
+and pass them on. Second component: the txs handed to the inner DSMR. The inner
+`DSMR.BuildChunk` is called after the loop and its error is returned unchanged: when it fails
+(duplicate chunk, rate limit, signing/storage error) the node state is the same as when it
+succeeds — the txs are bonded *and tracked*, so that expiry/accept still release them
+(`Op.buildFail`). -/
 def buildChunk (bondF : Db → Nat → Tx → Nat → Db × Bool) (n : Node) (rate : Nat) : List Tx → Node × List Tx
   | [] => (n, [])
   | tx :: rest =>
@@ -127,11 +131,14 @@ def accept (n : Node) (ts : Int) (txs : List Tx) : Node :=
 inductive Op where
   | setmax (s m : Nat)
   | build (rate : Nat) (txs : List Tx)
+  /-- a `BuildChunk` whose inner `DSMR.BuildChunk` returns an error -/
+  | buildFail (rate : Nat) (txs : List Tx)
   | accept (ts : Int) (txs : List Tx)
 
 def step (n : Node) : Op → Node
   | .setmax s m => setMax n s m
   | .build rate txs => (buildChunk bond n rate txs).1
+  | .buildFail rate txs => (buildChunk bond n rate txs).1
   | .accept ts txs => accept n ts txs
 
 def run (n : Node) (ops : List Op) : Node := ops.foldl step n
@@ -140,6 +147,7 @@ def run (n : Node) (ops : List Op) : Node := ops.foldl step n
 def stepOrig (n : Node) : Op → Node
   | .setmax s m => setMax n s m
   | .build rate txs => (buildChunk bondOrig n rate txs).1
+  | .buildFail rate txs => (buildChunk bondOrig n rate txs).1
   | .accept ts txs => accept n ts txs
 
 def runOrig (n : Node) (ops : List Op) : Node := ops.foldl stepOrig n
@@ -179,6 +187,7 @@ def Spec.accept (s : Spec) (ts : Int) (txs : List Tx) : Spec :=
 def Spec.step (s : Spec) : Op → Spec
   | .setmax a m => { s with maxBal := setAt s.maxBal a m }
   | .build rate txs => (s.build rate txs).1
+  | .buildFail rate txs => (s.build rate txs).1   -- bonded is bonded, whether or not the chunk was built
   | .accept ts txs => s.accept ts txs
 
 def Spec.run (s : Spec) (ops : List Op) : Spec := ops.foldl Spec.step s
